@@ -16,6 +16,10 @@ CHECKS = {
             "runtime monitor: recovery kernels run on reference-encoded stripes with garbage in failed blocks under guard pages/ASan; all minors of the exported generator tables by DFS elimination",
             "All failure sets and all parity choices for nd 1..8 x np 1..6 (+z) through raid_rec, raid_data and each exported decoder variant; sampled sets for larger nd (thorough: every nd to 251); raid_check/raid_scan acceptance and rejection; determinants of every square minor of order 1..4 (quick) and 1..6 (thorough, 3.8e11 minors) of the exported tables.",
             "Stripes are encoded by the harness's own reference, not by the code under test. raid_scan uniqueness only asserted for whole-block random garbage."),
+    "C06": ("exploration",
+            "runtime monitor: independent content-file decoder + GF(2^8) parity oracle over a harness-owned version store, applied after every command of random histories (plain and ASan/UBSan builds)",
+            "After every single command of random histories (syncs of all kinds incl. partial, forced, pre-hash, autosave, kill-after-sync; scrub; fix after random damage; rehash; touch; disk removal/addition leaving position holes) each on-disk content file is decoded independently, the block-map invariants are asserted and every stripe whose blocks are all recorded synced is recomputed from the version store and compared with the parity files at the offset given by the recorded split sizes. This is the right level because the property is a state invariant quantified over histories: an oracle after each step over thousands of sampled histories observes exactly the state the property talks about.",
+            "Histories are sampled (300 quick / 6000 thorough), not enumerated. Damage injected by the harness itself is tolerated (fix must only not break more). Durability ordering (fsync before content) is observed and reported but not judged: the property does not state it and a process kill cannot expose it."),
 }
 
 ALL = ["C%02d" % i for i in range(1, 21)]
